@@ -65,24 +65,42 @@ def _on_alarm(signum, frame):
 
 
 def run_timed(fn, wall_s=8, mem_bytes=4 * 1024 ** 3):
-    """fn() in THIS process under a wall-clock alarm and an address-space limit.
+    """fn() in THIS process under a CPU-time alarm and an address-space limit.
     The evaluator is pure Python, so the alarm interrupts runaway recursion /
     loops; a MemoryError is caught.  (No fork: forking from pool workers that
-    have numerical libraries loaded occasionally dead-locked the child.)"""
+    have numerical libraries loaded occasionally dead-locked the child.)
+
+    The budget `wall_s` is CPU time of this process (ITIMER_PROF): on a loaded
+    machine a trivial evaluation may wait many seconds for a core, which is no
+    property of the code under test.  A wall-clock backstop (30 x the budget,
+    at least 120 s) catches a blocked process; it is a failure of the machinery
+    (MachineryError), never a verdict."""
+    from .xl import MachineryError
     soft, hard = resource.getrlimit(resource.RLIMIT_AS)
     if soft == resource.RLIM_INFINITY or soft > mem_bytes:
         try:
             resource.setrlimit(resource.RLIMIT_AS, (mem_bytes, hard))
         except (ValueError, OSError):
             pass
-    old = signal.signal(signal.SIGALRM, _on_alarm)
-    signal.setitimer(signal.ITIMER_REAL, wall_s)
+    state = {'real': False}
+
+    def on_real(signum, frame):
+        state['real'] = True
+        raise _Timeout()
+    old_prof = signal.signal(signal.SIGPROF, _on_alarm)
+    old_real = signal.signal(signal.SIGALRM, on_real)
+    signal.setitimer(signal.ITIMER_PROF, wall_s)
+    signal.setitimer(signal.ITIMER_REAL, max(120, 30 * wall_s))
     try:
         return fn()
     except _Timeout:
+        if state['real']:
+            raise MachineryError('an evaluation got no CPU time within the wall-clock backstop (machine overloaded or process blocked)')
         return {'outcome': 'timeout'}
     except MemoryError:
         return {'outcome': 'memlimit'}
     finally:
+        signal.setitimer(signal.ITIMER_PROF, 0)
         signal.setitimer(signal.ITIMER_REAL, 0)
-        signal.signal(signal.SIGALRM, old)
+        signal.signal(signal.SIGPROF, old_prof)
+        signal.signal(signal.SIGALRM, old_real)
